@@ -150,9 +150,32 @@ func (a *Analysis) computeRegistryAssumption() {
 			}
 		}
 	}
+	// wrappers: a function that calls a mutator is itself part of the mutating API (Registry -> ctx.register …)
+	for changed := true; changed; {
+		changed = false
+		for fn := range p.AllFuncs {
+			if !p.InModule(fn) || fn.Blocks == nil || p.IsTestFile(fn.Pos()) || isInitFunc(fn) || mut[fn] {
+				continue
+			}
+			if fn.Pkg != a.U.Codec {
+				continue
+			}
+			for _, b := range fn.Blocks {
+				for _, in := range b.Instrs {
+					if c, ok := in.(ssa.CallInstruction); ok {
+						if callee := c.Common().StaticCallee(); callee != nil && mut[callee] && !mut[fn] {
+							mut[fn] = true
+							changed = true
+						}
+					}
+				}
+			}
+		}
+	}
+	// the assumption fails only if module code outside that API (and outside init) calls into it
 	a.RegistryStartup = true
 	for fn := range p.AllFuncs {
-		if !p.InModule(fn) || fn.Blocks == nil || p.IsTestFile(fn.Pos()) || isInitFunc(fn) {
+		if !p.InModule(fn) || fn.Blocks == nil || p.IsTestFile(fn.Pos()) || isInitFunc(fn) || mut[fn] {
 			continue
 		}
 		for _, b := range fn.Blocks {
@@ -240,13 +263,16 @@ func (a *Analysis) encLayout(ct *CodecType, p *Path) *PathLayout {
 			continue
 		}
 		dst := stripCT(e.Dst)
-		if dst.Op != "slice" || dst.Args[1] == nil || dst.Args[1].Op != "buflen" {
+		if dst.Op != "slice" || dst.Args[1] == nil {
 			continue
 		}
-		marker := dst.Args[1].ID
-		if f := fieldAfterMarker(p.Events, fs, marker); f != nil && f.Kind == "const" {
+		if f := fieldAtCut(p, fs, dst.Args[1]); f != nil && f.Kind == "const" {
 			f.Kind = "len"
 			f.Note = ""
+			if f.Order == "zero" {
+				// a placeholder of zero bytes has no byte order of its own: the patch decides how the field is rendered
+				f.Order, f.Type = e.Order, typeStr(e.IntType)
+			}
 			for idx, st := range stores {
 				if st.Src.Key() == e.Src.Key() {
 					f.GoField, f.Name = idx, c.fieldName(idx)
@@ -259,7 +285,7 @@ func (a *Analysis) encLayout(ct *CodecType, p *Path) *PathLayout {
 		if f.Kind != "checksum" {
 			continue
 		}
-		src := stripCT(f.Ev[0].Src)
+		src := stripSameWidth(f.Ev[0].Src)
 		f.Algo = calcAlgo(src)
 		for idx, st := range stores {
 			if st.Src.Key() == src.Key() {
@@ -302,6 +328,27 @@ func calcAlgo(v *Val) string {
 		return true
 	})
 	return name
+}
+
+// fieldAtCut: the layout field whose first event is the top-level wire event that starts at buffer position v
+// (a buf.Len() observation plus a constant).
+func fieldAtCut(p *Path, fs []*FieldLayout, v *Val) *FieldLayout {
+	ix := indexPath(p)
+	pos, _, ok := ix.cutOf(v)
+	if !ok {
+		return nil
+	}
+	for _, e := range p.Events {
+		if countsAsWire(e) && ix.wirePos[e] == pos {
+			for _, f := range fs {
+				if len(f.Ev) > 0 && f.Ev[0] == e {
+					return f
+				}
+			}
+			return nil
+		}
+	}
+	return nil
 }
 
 // fieldAfterMarker: the layout field whose first event is the first wire event after LEN marker id.
@@ -418,4 +465,22 @@ func (a *Analysis) nonNilErrGlobals() map[*ssa.Global]bool {
 	}
 	a.errGlobals = m
 	return m
+}
+
+// stripSameWidth removes integer conversions that keep the width (int32 <-> uint32 …): the bytes written are the same.
+func stripSameWidth(v *Val) *Val {
+	v = stripCT(v)
+	for v != nil && v.Op == "conv" && len(v.Args) == 1 && isIntegerType(v.Type) {
+		in := stripCT(v.Args[0])
+		if in.Type == nil || !isIntegerType(in.Type) {
+			break
+		}
+		s1, ok1 := fixedSize(v.Type)
+		s2, ok2 := fixedSize(in.Type)
+		if !ok1 || !ok2 || s1 != s2 {
+			break
+		}
+		v = in
+	}
+	return v
 }
